@@ -137,7 +137,7 @@ def rule_algid(ctx, prop: str) -> RuleResult:
     # constant folding uses the floor-semantics operators
     from .. import pat
 
-    if prop in ("C02", "C08", "C15"):
+    if prop in ("C02", "C08", "C14", "C15"):
         m = ix.module("src/exo/backend/LoopIR_compiler.py")
         tbl = m.assigns.get("operations")
         if not isinstance(tbl, ast.Dict):
